@@ -914,6 +914,9 @@ def run(ctx):
         c12conc.explore(ctx)
         # ---- F. end to end
         end_to_end(ctx)
+        # ---- G. quiescence under the cooperative scheduler: mixed transfers with failures, cancels and
+        # the user leaving / being interrupted while work is in flight; every semaphore back at capacity
+        scheduled_quiescence(ctx)
 
     # every mismatch: does the property fail on the implementation?
     for (case, i, m) in mism[:40]:
@@ -973,8 +976,23 @@ def search_after_break(ctx):
                    no_input=True)
 
 
+def quiescence_mons():
+    from harness.sched import monitors as M
+    return [M.m_terminates, M.m_permits_restored]
+
+
+def scheduled_quiescence(ctx):
+    from harness.props import sysrun, c18
+    specs = c18.specs(ctx)
+    step = 2 if ctx.thorough() else 5
+    sysrun.sub_runs(ctx, specs[::step], quiescence_mons())
+
+
 def replay(ctx, data):
     case = data.get('case') or {}
+    if isinstance(case, dict) and 'transfers' in case:
+        from harness.props import sysrun
+        return sysrun.replay_spec(ctx, data, quiescence_mons())
     kind = case.get('kind')
     if kind == 'S':
         ops = [op_parse(s) for s in case['ops']]
